@@ -209,6 +209,34 @@ theorem returned_table_in_property_words (t : Table) (chrom : Option String)
       subst hss'
       exact hq _ rfl
 
+/-- `in_range(chrom, start, end, mode)` is `in_ranges` of the one range `[start]` / `[end]`; an absent bound is an
+    absent array -/
+theorem in_range_is_in_ranges_of_one_range (t : Table) (chrom : Option String) (qs qe : Option Int) (mode : Mode) :
+    c07InRangesRaw t chrom (qs.map (fun s => [s])) (qe.map (fun e => [e])) mode = .ok (inRange t chrom qs qe mode) := by
+  unfold c07InRangesRaw inRange
+  show (if (c07ChromRows t chrom).isEmpty = true then _ else _) = Except.ok (selectRange (c07ChromRows t chrom) qs qe mode)
+  by_cases hemp : (c07ChromRows t chrom).isEmpty = true
+  · have hnil : c07ChromRows t chrom = [] := by simpa using hemp
+    simp only [hnil]
+    congr 1
+    unfold selectRange idxSelect
+    cases mode <;> simp [trimRows]
+  · simp only [hemp, if_false, Bool.false_eq_true]
+    rcases qs with _ | s <;> rcases qe with _ | e <;>
+      simp [c07Given, c07LenMismatch, zipBounds, selectRange_none]
+
+/-- a chromosome the table does not have (or an empty table): an empty table comes back whatever the arrays are;
+    nothing is raised -/
+theorem absent_chromosome_never_raises (t : Table) (chrom : Option String) (starts ends : Option (List Int))
+    (mode : Mode) (h : c07ChromRows t chrom = []) : c07InRangesRaw t chrom starts ends mode = .ok [] := by
+  unfold c07InRangesRaw
+  simp [h]
+
+/-- the number of per-range selections concatenated is the length of the SHORTER of two given arrays -/
+theorem number_of_ranges_visited (ss es : List Int) :
+    (zipBounds (some ss) (some es)).length = min ss.length es.length := by
+  simp [zipBounds]
+
 /-! non-vacuity: each branch is reached -/
 example : c07InRangesRaw [⟨"chr1", 0, 5, "a"⟩, ⟨"chr1", 3, 8, "b"⟩, ⟨"chr1", 8, 12, "c"⟩] (some "chr1")
     (some [1, 6, 9]) (some [4, 7]) .trim = .ok [⟨"chr1", 1, 4, "a"⟩, ⟨"chr1", 3, 4, "b"⟩, ⟨"chr1", 6, 7, "b"⟩] := by rfl
